@@ -29,6 +29,8 @@ Ltac corr_prep :=
   cbv beta iota zeta delta [andb orb negb];
   rewrite ?ln_1, ?Ropp_0;
   npow_with ltac:(first [lra | interval with (i_prec 80)]);
+  rewrite ?Rplus_0_l, ?Rplus_0_r;       (* 0 ** theta + 0 ** theta at the corner (1,1) *)
+  npow_with ltac:(first [lra | interval with (i_prec 80)]);
   unfold Rpower.
 
 Ltac corr := corr_prep; interval with (i_prec 80).
